@@ -2,6 +2,7 @@ package harness
 
 import (
 	"context"
+	"encoding/json"
 	"fmt"
 	"runtime"
 	"sort"
@@ -54,6 +55,9 @@ type c12PluginOut struct {
 	Unknown int        `json:"unknown"` // calls for payloads that are no input item
 	Perf    []JCR      `json:"perf"`    // performables of the node's final observation
 	ObsErr  string     `json:"obsErr"`
+	// PeerReject: why a peer's ValidateObservation would refuse the node's final observation ("" = accepted).
+	// Not part of C12 (C03 is about that); recorded because a staged result can cause it.
+	PeerReject string `json:"peerReject"`
 }
 
 type c12StressIn struct {
@@ -72,6 +76,90 @@ type c12StressOut struct {
 	D1  [][2]int64 `json:"d1"`  // (work id index, check block) handed out, in order
 	D2  [][2]int64 `json:"d2"`
 	Bad int        `json:"bad"` // handed-out payloads that are not of the case
+}
+
+// "fair": D records that fail again whenever they are retried (re-enqueued with a short interval, so all D are due
+// at every call) and Dequeue(n) with n < D, for many rounds.  Go ranges over the map from a random position, so
+// every record is within the first n with a probability bounded away from 0 in every call; a record that is due at
+// every one of K calls and is never handed out has been starved behind the batch limit.
+type c12FairIn struct {
+	D      int   `json:"d"`      // records, all due at every call
+	N      int   `json:"n"`      // batch limit of each Dequeue
+	K      int   `json:"k"`      // rounds
+	Iv     int64 `json:"iv"`     // interval of every (re-)enqueue, ns
+	Step   int64 `json:"step"`   // virtual ns between rounds (> Iv)
+	Prefix bool  `json:"prefix"` // work ids with a long common prefix (otherwise hashes)
+}
+type c12FairOut struct {
+	Counts   []int `json:"counts"`   // per record: how often it was handed out
+	Short    int   `json:"short"`    // calls that returned fewer than min(n, D) payloads
+	Foreign  int   `json:"foreign"`  // handed-out payloads that are no record of the case, or handed out twice in a call
+	MaxWait  []int `json:"maxWait"`  // per record: longest run of consecutive calls in which it was due and not handed out
+	LastSeen []int `json:"lastSeen"` // per record: last round in which it was handed out (-1 never)
+}
+
+func c12RunFair(t *testing.T, in c12Input) c12Impl {
+	f := *in.Fair
+	q := stores.NewRetryQueue(quietLogger)
+	r := NewRng(uint64(f.D*1000003 + f.N*1009 + f.K))
+	ps := make([]ocr2keepers.UpkeepPayload, f.D)
+	ix := map[string]int{}
+	for i := range ps {
+		if f.Prefix {
+			ps[i] = ocr2keepers.UpkeepPayload{WorkID: fmt.Sprintf("0xabcdef%04d", i), Trigger: ocr2keepers.Trigger{BlockNumber: 7}}
+		} else {
+			ps[i] = c12GenPayload(r, true, 100)
+		}
+		ix[ps[i].WorkID] = i
+		_ = q.Enqueue(types.RetryRecord{Payload: ps[i], Interval: time.Duration(f.Iv)})
+	}
+	out := &c12FairOut{Counts: make([]int, f.D), MaxWait: make([]int, f.D), LastSeen: make([]int, f.D)}
+	wait := make([]int, f.D)
+	for i := range out.LastSeen {
+		out.LastSeen[i] = -1
+	}
+	want := f.N
+	if f.D < want {
+		want = f.D
+	}
+	for k := 0; k < f.K; k++ {
+		time.Sleep(time.Duration(f.Step))
+		got, _ := q.Dequeue(f.N)
+		if len(got) < want {
+			out.Short++
+		}
+		seen := map[int]bool{}
+		for _, p := range got {
+			i, ok := ix[p.WorkID]
+			if !ok || seen[i] {
+				out.Foreign++
+				continue
+			}
+			seen[i] = true
+			out.Counts[i]++
+			out.LastSeen[i] = k
+			// the retry fails again: the retry flow's post-processor schedules it once more
+			_ = q.Enqueue(types.RetryRecord{Payload: p, Interval: time.Duration(f.Iv)})
+		}
+		for i := range wait {
+			if seen[i] {
+				wait[i] = 0
+			} else {
+				wait[i]++
+				if wait[i] > out.MaxWait[i] {
+					out.MaxWait[i] = wait[i]
+				}
+			}
+		}
+	}
+	return c12Impl{Fair: out}
+}
+
+func c12GenFair(r *Rng) c12Input {
+	n := []int{1, 2, 5, 10, 10, 10}[r.Intn(6)] // 10 = flows.RetryBatchSize
+	f := c12FairIn{N: n, D: n + r.Range(1, 6), K: 1000, Iv: []int64{1, 5_000_000, int64(time.Second)}[r.Intn(3)], Prefix: r.Chance(30)}
+	f.Step = f.Iv + 1 + int64(r.Intn(3))*int64(flows.RetryCheckInterval)
+	return c12Input{Kind: "fair", Fair: &f}
 }
 
 // ---------------------------------------------------------------- plugin cases
@@ -153,10 +241,17 @@ func c12RunPlugin(t *testing.T, in c12Input) c12Impl {
 	raw, err := node.Plugin.Observation(context.Background(), ocr3types.OutcomeContext{SeqNr: 3}, nil)
 	if err != nil {
 		out.ObsErr += "final: " + err.Error()
-	} else if obs, err := ocr2keepersv3.DecodeAutomationObservation(raw, utg, wg); err != nil {
-		out.ObsErr += "decode: " + err.Error()
-	} else {
+	} else if obs, err := ocr2keepersv3.DecodeAutomationObservation(raw, utg, wg); err == nil {
 		out.Perf = toJCRs(obs.Performable)
+	} else {
+		// the validating decoder of the peers refuses it; read what the node offers all the same
+		out.PeerReject = err.Error()
+		var plain ocr2keepersv3.AutomationObservation
+		if err := json.Unmarshal(raw, &plain); err != nil {
+			out.ObsErr += "decode: " + err.Error()
+		} else {
+			out.Perf = toJCRs(plain.Performable)
+		}
 	}
 	sort.Slice(out.Perf, func(i, j int) bool { return out.Perf[i].WID < out.Perf[j].WID })
 
@@ -344,6 +439,12 @@ func c12PluginAndStress(t *testing.T, em *Emitter, r *Rng, run func(string, c12I
 			em.Hit("plugin:path=" + it.Path)
 			em.Hit(fmt.Sprintf("plugin:retries=%d", len(it.Script)-1))
 		}
+		run("gen", in)
+	}
+	nf := tierN(24, 400)
+	for i := 0; i < nf; i++ {
+		in := c12GenFair(r)
+		em.Hit(fmt.Sprintf("fair:n=%d", in.Fair.N))
 		run("gen", in)
 	}
 	ns := tierN(150, 3000)
